@@ -120,6 +120,28 @@ def directed_cases():
             out.append(pipeline.Case("pn%d%s" % (i, "c" if captured else "s"), {"main.tsh": src.encode()},
                                      meta=dict(src=src, expected_out=exp, extra_files={nm: PROBE}, args=args, skip=False,
                                                expected_err=["E:" + os.path.basename(nm)])))
+    # arguments with EFFECTS in different stages of one pipeline are evaluated stage by stage, left to right (round 14: C18-G evaluated the
+    # arguments of the last command first): a counter function, in the statement form and captured, two and three stages
+    TEE = b'''#!/bin/bash
+echo "E:${0##*/}" >&2
+cat
+for a in "$@"; do printf '{%s}\\n' "$a"; done
+s=${0##*exit}; s=${s%.sh}
+exit $s
+'''
+    pre = 'var n int = 0\nfunc next() string {\n\tn = n + 1\n\treturn "v" + itoa(n)\n}\n'
+    two = '@"./probe_exit0.sh"(next(), "x") | @"./tee_exit0.sh"(next())'
+    three = '@"./probe_exit0.sh"(next()) | @"./tee_exit0.sh"(next(), next()) | @"./tee2_exit0.sh"("lit", next())'
+    for tag, chain, exp, errs in (("two", two, probe_out(["v1", "x"]) + "{v2}\n", ["E:probe_exit0.sh", "E:tee_exit0.sh"]),
+                                  ("three", three, probe_out(["v1"]) + "{v2}\n{v3}\n{lit}\n{v4}\n", ["E:probe_exit0.sh", "E:tee2_exit0.sh", "E:tee_exit0.sh"])):
+        files = {"probe_exit0.sh": PROBE, "tee_exit0.sh": TEE, "tee2_exit0.sh": TEE}
+        src = pre + chain + '\nprint("done", next())\n'
+        out.append(pipeline.Case("order-%s-stmt" % tag, {"main.tsh": src.encode()},
+                                 meta=dict(src=src, expected_out=exp + "done v%d\n" % (3 if tag == "two" else 5), extra_files=files, args=[], skip=False, expected_err=errs)))
+        src = pre + "so, se, code := " + chain + '\nprint("[" + so + "]", code, next())\n'
+        out.append(pipeline.Case("order-%s-captured" % tag, {"main.tsh": src.encode()},
+                                 meta=dict(src=src, expected_out="[" + exp.rstrip("\n") + "] 0 v%d\n" % (3 if tag == "two" else 5), extra_files=files, args=[], skip=False,
+                                           expected_err=errs)))
     src = 'print(@sh("-c", "echo first; exit 3"), @sh("-c", "echo second; exit 4"))\nx1, y1, z1 := @sh("-c", "echo p; exit 5")\nx2, y2, z2 := @sh("-c", "echo q; exit 6")\nprint(x1, z1, x2, z2)\n'
     out.append(pipeline.Case("caps-print-two", {"main.tsh": src.encode()},
                              meta=dict(src=src, expected_out="first  3 second  4\np 5 q 6\n", extra_files={}, args=[], skip=False, expected_err=[])))
